@@ -138,6 +138,7 @@ func runC11(c *Check) {
 	c.Floor("C11-R4", 5)
 	c.scanDirections(prune, pruneFrom)
 	c.pruneShape(prune, pruneFrom)
+	c.simplifiedNameIsTrimmed()
 }
 
 // scanDirections (R5): Prune looks for the first match scanning from the root, so its
@@ -752,6 +753,7 @@ func (c *Check) pruneShape(prune, pruneFrom *ssa.Function) {
 					bad = describeValue(e)
 				}
 			}
+			c.userFrameNeedsAllSets(ph, b)
 			if bad == "" {
 				c.ok("C11-R7", key, p.relFile(ph.Pos()), "the flag "+ph.Comment+" starts from a constant for every sample", "the edge entering the frame loop carries a constant")
 			} else {
@@ -890,4 +892,167 @@ func nestingDepth(b *ssa.BasicBlock) int {
 		}
 	}
 	return n
+}
+
+// userFrameNeedsAllSets (R9): the per-sample scan counts a location as a user frame (sets the
+// loop-carried flag) only when the location is in none of the marking sets that the scan
+// consults: every set looked up with the location's id inside the frame loop has come out
+// negative on the path that sets the flag.  A location that was trimmed in the middle of its
+// inlined lines is marked in one set only; counting it as a user frame lets the frames on its
+// leaf side survive.
+func (c *Check) userFrameNeedsAllSets(flag *ssa.Phi, hdr *ssa.BasicBlock) {
+	p := c.P
+	loop := naturalLoop(hdr)
+	// where the flag becomes true
+	var setAt []*ssa.BasicBlock
+	seen := map[*ssa.Phi]bool{}
+	var walk func(ph *ssa.Phi)
+	walk = func(ph *ssa.Phi) {
+		if seen[ph] {
+			return
+		}
+		seen[ph] = true
+		for i, e := range ph.Edges {
+			switch x := e.(type) {
+			case *ssa.Const:
+				if x.Value != nil && x.Value.String() == "true" && loop[ph.Block().Preds[i]] {
+					setAt = append(setAt, ph.Block().Preds[i])
+				}
+			case *ssa.Phi:
+				if loop[x.Block()] {
+					walk(x)
+				}
+			}
+		}
+	}
+	walk(flag)
+	// the sets consulted in the loop
+	type lk struct {
+		m   ssa.Value
+		ins *ssa.Lookup
+	}
+	var sets []ssa.Value
+	var lookups []lk
+	for b := range loop {
+		for _, ins := range b.Instrs {
+			l, ok := ins.(*ssa.Lookup)
+			if !ok {
+				continue
+			}
+			mt, ok := l.X.Type().Underlying().(*types.Map)
+			if !ok {
+				continue
+			}
+			if bt, ok := mt.Elem().Underlying().(*types.Basic); !ok || bt.Kind() != types.Bool {
+				continue
+			}
+			lookups = append(lookups, lk{l.X, l})
+			known := false
+			for _, m := range sets {
+				if m == l.X {
+					known = true
+				}
+			}
+			if !known {
+				sets = append(sets, l.X)
+			}
+		}
+	}
+	key := "user-frame:" + flag.Comment
+	if len(setAt) == 0 || len(sets) == 0 {
+		return // a flag of another kind
+	}
+	negativeOn := func(m ssa.Value, at *ssa.BasicBlock) bool {
+		for d, child := at.Idom(), at; d != nil; child, d = d, d.Idom() {
+			iff, ok := d.Instrs[len(d.Instrs)-1].(*ssa.If)
+			if !ok {
+				continue
+			}
+			cond, pol := iff.Cond, true
+			if un, ok := cond.(*ssa.UnOp); ok && un.Op == token.NOT {
+				cond, pol = un.X, false
+			}
+			l, ok := cond.(*ssa.Lookup)
+			if !ok || l.X != m {
+				continue
+			}
+			neg := d.Succs[1]
+			if !pol {
+				neg = d.Succs[0]
+			}
+			if neg == child && len(child.Preds) == 1 || neg.Dominates(at) && len(neg.Preds) == 1 {
+				return true
+			}
+		}
+		return false
+	}
+	bad := ""
+	for _, at := range setAt {
+		for _, m := range sets {
+			if !negativeOn(m, at) {
+				bad = describeValue(m)
+			}
+		}
+	}
+	if bad == "" {
+		c.ok("C11-R9", key, p.relFile(flag.Pos()), "a location counts as a user frame only when it is in none of the marking sets", fmt.Sprintf("the %d assignment(s) of true to the flag are dominated by a negative lookup in each of the %d sets consulted in the frame loop", len(setAt), len(sets)))
+	} else {
+		c.bad("C11-R9", key, p.relFile(flag.Pos()), "the frame loop counts a location as a user frame without having found it absent from the marking set "+bad+": a location whose inlined lines were trimmed at a match in their middle is passed over, so the frames on its leaf side stay in the stack")
+	}
+}
+
+// simplifiedNameIsTrimmed (R10): every value simplifyFunc returns is derived from the name
+// with the leading '.' removed (PPC64 ELFv1): no return hands back the raw parameter, or
+// `.malloc` is not matched by drop_frames "malloc".
+func (c *Check) simplifiedNameIsTrimmed() {
+	p := c.P
+	f := c.anchorFn("C11-R10", "profile", "simplifyFunc")
+	if f == nil || len(f.Params) != 1 {
+		return
+	}
+	raw := ""
+	trimmed := 0
+	var origin func(v ssa.Value, seen map[ssa.Value]bool)
+	origin = func(v ssa.Value, seen map[ssa.Value]bool) {
+		if seen[v] {
+			return
+		}
+		seen[v] = true
+		switch x := v.(type) {
+		case *ssa.Parameter:
+			raw = x.Name()
+		case *ssa.Phi:
+			for _, e := range x.Edges {
+				origin(e, seen)
+			}
+		case *ssa.Slice:
+			origin(x.X, seen)
+		case *ssa.Call:
+			if sc := x.Call.StaticCallee(); sc != nil && fnPkgPath(sc) == "strings" && strings.HasPrefix(sc.Name(), "Trim") && len(x.Call.Args) >= 1 && x.Call.Args[0] == ssa.Value(f.Params[0]) {
+				trimmed++
+				return
+			}
+			if h := helperCallee(f, x); h != nil {
+				// a helper that receives the trimmed name: follow its argument
+				for _, a := range x.Call.Args {
+					origin(a, seen)
+				}
+			}
+		}
+	}
+	n := 0
+	for _, b := range f.Blocks {
+		if ret, ok := b.Instrs[len(b.Instrs)-1].(*ssa.Return); ok && len(ret.Results) == 1 {
+			n++
+			origin(ret.Results[0], map[ssa.Value]bool{})
+		}
+	}
+	switch {
+	case raw != "":
+		c.bad("C11-R10", "trimmed-name", p.relFile(f.Pos()), "simplifyFunc can return its parameter "+raw+" as it came in: a name with the leading '.' of the PPC64 ELFv1 ABI is then compared with drop_frames / prune_from unsimplified and never matches")
+	case trimmed == 0:
+		c.undecided("C11-R10", "trimmed-name", p.relFile(f.Pos()), "simplifyFunc: no strings.Trim* call on the parameter found among the origins of its results")
+	default:
+		c.ok("C11-R10", "trimmed-name", p.relFile(f.Pos()), "every result of simplifyFunc is derived from the name without its leading '.'", fmt.Sprintf("%d return(s): the raw parameter is not among the origins", n))
+	}
 }
